@@ -298,9 +298,9 @@ theorem join_time_no_branches (env : Env) (fuel : Nat) (params ctx : Json) (st :
 branch's error: this branch failed at `t1`, the others at a later instant -/
 theorem earliest_failure_wins (e e' : Str) (c c' : Option Json) (f f' : Bool) (t1 : Rat) (st2 : St) (tOk : Rat) :
     (t1 < st2.clock → fanCombine (.failed e c f) t1 (.error (.failed e' c' f')) st2 tOk =
-      (.error (.failed e c f), st2.at t1)) ∧
+      (.error (.failed e c f), { st2 with multiFail := true, clock := t1 })) ∧
     (st2.clock < t1 → fanCombine (.failed e c f) t1 (.error (.failed e' c' f')) st2 tOk =
-      (.error (.failed e' c' f'), st2)) := by
+      (.error (.failed e' c' f'), { st2 with multiFail := true })) := by
   constructor
   · intro h; simp [fanCombine, h]
   · intro h
@@ -367,7 +367,8 @@ private def aslP : Json := .obj [(k "StartAt", .str (k "P")), (k "States", .obj 
 example : (run envT 20 aslP inT (.obj [])).endTime = 3000 ∧
     (run envT 20 aslP inT (.obj [])).times = [0, 0, 0, 0, 1000, 0, 3000, 3000, 3000] := by decide +kernel
 /-- … and when both branches fail, after 2 s with E1 and after 1 s with E2, the Parallel state fails at 1000 ms
-with E2: the earliest failure, not the lowest index (`earliest_failure_wins`); no tie, so `multiFail` is false -/
+with E2: the earliest failure, not the lowest index (`earliest_failure_wins`); several failed (`multiFail`) but not at
+the same instant (`tieFail` is false) -/
 private def failAfter (w f e : String) (secs : Int) : Json :=
   .obj [(k "StartAt", .str (k w)), (k "States", .obj [
     (k w, waitSt secs (some f)), (k f, .obj [(k "Type", .str (k "Fail")), (k "Error", .str (k e))])])]
@@ -375,7 +376,8 @@ private def aslE : Json := .obj [(k "StartAt", .str (k "P")), (k "States", .obj 
   (k "P", .obj [(k "Type", .str (k "Parallel")), (k "End", .bool true),
     (k "Branches", .arr [failAfter "W1" "F1" "E1" 2, failAfter "W2" "F2" "E2" 1])])])]
 example : (run envT 20 aslE inT (.obj [])).error = some (k "E2") ∧ (run envT 20 aslE inT (.obj [])).endTime = 1000 ∧
-    (run envT 20 aslE inT (.obj [])).multiFail = false ∧ (run envT 20 aslE inT (.obj [])).fanFail = true := by
+    (run envT 20 aslE inT (.obj [])).multiFail = true ∧ (run envT 20 aslE inT (.obj [])).tieFail = false ∧
+    (run envT 20 aslE inT (.obj [])).fanFail = true := by
   decide +kernel
 /-- a Map over three items with MaxConcurrency 2, each iteration waiting 1 s: two batches, over at 2000 ms -/
 private def aslM : Json := .obj [(k "StartAt", .str (k "M")), (k "States", .obj [
